@@ -66,14 +66,18 @@ def splitColon : List Char → List (List Char)
 def isPySpace (c : Char) : Bool := (9 ≤ c.toNat && c.toNat ≤ 13) || (28 ≤ c.toNat && c.toNat ≤ 32)
 
 /-- the clock text `time_to_hexadecimal_timestamp` accepts: `split(":")` must give at least two parts
-    (else IndexError); then `strptime(date + " " + p0 + ":" + p1, "%d/%m/%Y %H:%M")` must match: the blank of the
-    format absorbs leading white space of p0, parts after the second are ignored -/
+    (else IndexError); then `strptime(time_value, "%H:%M")` must match the WHOLE text, and
+    `strptime(date + " " + p0 + ":" + p1, "%d/%m/%Y %H:%M")` (the blank of the format would absorb leading white space of
+    p0, parts after the second would be ignored) gives the hour and minute -/
 def parseClock (s : List Char) : Py (Nat × Nat) :=
   match splitColon s with
   | p0 :: p1 :: _ =>
-    match parseHM (p0.dropWhile isPySpace ++ [':'] ++ p1) with
-    | some hm => pure hm
+    match parseHM s with
     | none => throw .valueError
+    | some _ =>
+      match parseHM (p0.dropWhile isPySpace ++ [':'] ++ p1) with
+      | some hm => pure hm
+      | none => throw .valueError
   | _ => throw .indexError
 
 /-- `time_to_hexadecimal_timestamp` on a host whose zone is a fixed UTC offset of `off` seconds -/
